@@ -142,7 +142,11 @@ func main() {
 	}
 }
 
+// currentProp: the property whose check is running (set by `run -prop`, or by the check script for replays)
+var currentProp = os.Getenv("VERIF_PROP")
+
 func runProp(prop, tier string, seed uint64, dir string) {
+	currentProp = prop
 	start := time.Now()
 	mk := func(name string) *bufio.Writer {
 		f, err := os.Create(dir + "/" + name)
